@@ -84,6 +84,10 @@ class Session:
         # one TLC start costs seconds (all interface constants are evaluated): not more files than parallel workers
         nw = workers if self.tier == "quick" else 14
         chunk = max(chunk, -(-len(recs) // nw)) if chunk < 10 ** 8 else chunk
+        # heavy lines (long sessions) tend to sit together in the generation order: spread them over the files
+        if chunk < 10 ** 8:
+            recs = list(recs)
+            random.Random(12345).shuffle(recs)
         files = []
         for k in range(0, len(recs), chunk):
             p = os.path.join(self.wd, "%s.%04d.ndjson" % (name, k // chunk))
